@@ -27,6 +27,7 @@
 #include <algorithm>
 #include <cstddef>
 #include <cstring>
+#include <functional>
 #include <iterator>
 #include <memory>
 #include <type_traits>
@@ -935,8 +936,9 @@ void generate_pixels(View const& view, F fun)
     }
     else
     {
+        // one generator object for all rows: a generator that keeps its state by value must not restart on every row
         for (std::ptrdiff_t y = 0; y < view.height(); ++y)
-            std::generate(view.row_begin(y), view.row_end(y), fun);
+            std::generate(view.row_begin(y), view.row_end(y), std::ref(fun));
     }
 }
 
